@@ -135,19 +135,21 @@ static size_t find_earliest_deadline(reproc_event_source *sources, size_t num_so
 #define IN_RANGE(k) ((k) < num_sources)
 #define HASP(k) (IN_RANGE(k) && SRC(k).process != NULL)
 /* the pipe polled in slot 4k+j (or -1): stdin for IN, stdout for OUT, stderr for ERR, exit pipe for EXIT */
-#define SLOT_PIPE(k, j) ((j) == 0 ? ((SRC(k).interests & EV_IN) ? SRC(k).process->pipe.in : -1) \
-                       : (j) == 1 ? ((SRC(k).interests & EV_OUT) ? SRC(k).process->pipe.out : -1) \
-                       : (j) == 2 ? ((SRC(k).interests & EV_ERR) ? SRC(k).process->pipe.err : -1) \
-                                  : ((SRC(k).interests & EV_EXIT) ? SRC(k).process->pipe.exit : -1))
-#define VALID_ANY(k) (HASP(k) && (SLOT_PIPE(k, 0) != -1 || SLOT_PIPE(k, 1) != -1 || SLOT_PIPE(k, 2) != -1 || SLOT_PIPE(k, 3) != -1))
+/* (branch-free: selected ? pipe : -1  ==  selected * (pipe + 1) - 1) */
+#define SEL(k, bit, fd) ((int) B(SRC(k).interests & (bit)) * ((fd) + 1) - 1)
+#define SLOT_PIPE(k, j) ((j) == 0 ? SEL(k, EV_IN, SRC(k).process->pipe.in) \
+                       : (j) == 1 ? SEL(k, EV_OUT, SRC(k).process->pipe.out) \
+                       : (j) == 2 ? SEL(k, EV_ERR, SRC(k).process->pipe.err) \
+                                  : SEL(k, EV_EXIT, SRC(k).process->pipe.exit))
+#define VALID_ANY(k) (HASP(k) && (B(SLOT_PIPE(k, 0) != -1) | B(SLOT_PIPE(k, 1) != -1) | B(SLOT_PIPE(k, 2) != -1) | B(SLOT_PIPE(k, 3) != -1)) != 0)
 #define EVBIT(k, j) (SLOT_PIPE(k, j) != -1 && g.pl.poll_rev[4 * (k) + (j)] > 0)
 #define EV_EXPECT(k) (!HASP(k) ? 0 : ((EVBIT(k, 0) ? EV_IN : 0) | (EVBIT(k, 1) ? EV_OUT : 0) | (EVBIT(k, 2) ? EV_ERR : 0) | (EVBIT(k, 3) ? EV_EXIT : 0)))
 #define EV_IS_EXPECTED(k) (!IN_RANGE(k) || SRC(k).events == EV_EXPECT(k))
 #define EV_ZERO(k) (!IN_RANGE(k) || SRC(k).events == 0)
 #define EV_NONZERO(k) (IN_RANGE(k) && SRC(k).events != 0)
 #define EV_COUNT ((EV_NONZERO(0) ? 1 : 0) + (EV_NONZERO(1) ? 1 : 0) + (EV_NONZERO(2) ? 1 : 0))
-#define EV_SUBSET(k) (!IN_RANGE(k) || ((SRC(k).events & ~((SRC(k).interests & 15) | EV_DEADLINE)) == 0 && (SRC(k).process != NULL || SRC(k).events == 0)))
-#define EV_ONLY_VALID(k) (!HASP(k) || ((!(SRC(k).events & EV_IN) || SRC(k).process->pipe.in != -1) && (!(SRC(k).events & EV_OUT) || SRC(k).process->pipe.out != -1) && (!(SRC(k).events & EV_ERR) || SRC(k).process->pipe.err != -1) && (!(SRC(k).events & EV_EXIT) || SRC(k).process->pipe.exit != -1)))
+#define EV_SUBSET(k) (!IN_RANGE(k) || (B((SRC(k).events & ~((SRC(k).interests & 15) | EV_DEADLINE)) == 0) & (B(SRC(k).process != NULL) | B(SRC(k).events == 0))) != 0)
+#define EV_ONLY_VALID(k) (!HASP(k) || (IMPL(SRC(k).events & EV_IN, SRC(k).process->pipe.in != -1) & IMPL(SRC(k).events & EV_OUT, SRC(k).process->pipe.out != -1) & IMPL(SRC(k).events & EV_ERR, SRC(k).process->pipe.err != -1) & IMPL(SRC(k).events & EV_EXIT, SRC(k).process->pipe.exit != -1)) != 0)
 #define ONLY_DEADLINE_ON(r) (IN_RANGE(r) && SRC(r).events == EV_DEADLINE && ((r) == 0 || EV_ZERO(0)) && ((r) == 1 || EV_ZERO(1)) && ((r) == 2 || EV_ZERO(2)))
 #define ONLY_DEADLINE_ON_EXPIRED(r) (ONLY_DEADLINE_ON(r) && EXPIRED_NOW(r))
 #define ONLY_DEADLINE_ON_EARLIEST(r) (ONLY_DEADLINE_ON(r) && EARLIEST(r))
